@@ -57,7 +57,7 @@ Lemma process_frames_ok fs hs :
 Proof.
   revert hs. induction fs as [|f fs IH]; intros hs; cbn [process_frames].
   - intros [= <-]. repeat split. constructor.
-  - destruct f as [h| | | |]; try discriminate.
+  - destruct f as [h| | | | |]; try discriminate.
     destruct (h_ok h) eqn:Hok; [|discriminate].
     destruct (process_frames fs) as [e|l] eqn:Hp; [discriminate|].
     intros [= <-]. destruct (IH l eq_refl) as (H1 & H2 & H3).
@@ -1351,7 +1351,7 @@ Definition honest_ev (s : sess) (ev : event) : Prop :=
   match ev with
   | ERespond p now fs =>
     match take_flight p (s_flight s) with
-    | Some (r, _) => exists a rest, a <= top /\ honest_answer c a r = fs ++ rest
+    | Some (r, _) => exists t a rest, a <= top /\ honest_answer_t c t a r = fs ++ rest
     | None => True
     end
   | _ => True
@@ -1365,10 +1365,17 @@ Fixpoint honest_run (s : sess) (evs : list event) : Prop :=
 
 Definition on_chain (h : hdr) : Prop := h = c (h_height h) /\ h_height h <= top.
 
-Lemma honest_answer_on_chain a r h :
-  a <= top -> In h (frame_hdrs (honest_answer c a r)) -> on_chain h.
+Lemma honest_answer_on_chain t a r h :
+  a <= top -> In h (frame_hdrs (honest_answer_t c t a r)) -> on_chain h.
 Proof.
-  intros Ha. unfold honest_answer. destruct (N.ltb_spec a (r_origin r)) as [Hlt|Hge]; [intros []|].
+  intros Ha. unfold honest_answer_t.
+  destruct (wrap64 (r_origin r + r_amount r) <=? r_origin r); [intros []|].
+  destruct (r_origin r =? 0).
+  { destruct (a <? t); [intros []|]. cbn. intros [<-|[]]. unfold on_chain. rewrite Hch by lia.
+    split; [reflexivity | lia]. }
+  destruct (max_range_request <? r_amount r); [intros []|]. destruct (a <? t); [intros []|].
+  destruct (N.ltb_spec a (r_origin r)) as [Hlt|Hge]; [intros []|]. cbn [orb].
+  destruct (r_origin r <? t); [intros []|].
   rewrite frame_hdrs_map. intros Hin. apply in_map_iff in Hin as (n & <- & Hn).
   apply In_seqN in Hn. unfold on_chain. rewrite Hch by lia. split; [reflexivity | lia].
 Qed.
@@ -1390,12 +1397,12 @@ Proof.
     destruct (take_flight p (s_flight s)) as [[r fl]|] eqn:Htf.
     2:{ unfold step. rewrite Hres, Htf. split; [exact Hc | intros ? Hl; congruence]. }
     rewrite (step_respond _ _ _ _ _ _ _ _ _ _ Hres Htf).
-    destruct Hh as (a & rest & Ha & Hrest).
+    destruct Hh as (t & a & rest & Ha & Hrest).
     destruct (do_request now drift tv from r fs) as [e|h|] eqn:Hdo.
     + split; cbn [s_coll s_res]; [exact Hc | discriminate].
     + destruct (do_request_ok drift tv now from r fs h Hnil Hdo) as (_ & _ & Hincl & _).
       assert (Hh : Forall on_chain h).
-      { apply Forall_forall. intros x Hx. apply (honest_answer_on_chain a r); [exact Ha|].
+      { apply Forall_forall. intros x Hx. apply (honest_answer_on_chain t a r); [exact Ha|].
         rewrite Hrest, frame_hdrs_app. apply in_or_app. left. apply Hincl, Hx. }
       assert (Hall : Forall on_chain (s_coll s ++ h)) by (apply Forall_app; split; assumption).
       assert (Hfin : forall rq, CI (Sess (s_amount s) (s_queue s ++ rq) (s_idle s ++ [p]) fl (s_coll s ++ h) (s_chunks s ++ [h])
@@ -1467,7 +1474,7 @@ Proof.
   unfold honest_ev. destruct (take_flight p (s_flight s)) as [[r fl]|]; [|exact I].
   apply andb_prop in H1 as [Ha Hp]. apply N.leb_le in Ha.
   destruct (prefix_b_sound frame_eqb frame_eqb_eq _ _ Hp) as (rest & Hrest).
-  exists a, rest. split; assumption.
+  exists 1, a, rest. split; assumption.
 Qed.
 
 Lemma get_range_fresh maxcap per from to peers :
@@ -1626,18 +1633,26 @@ Qed.
 
 (** any non-empty honest answer is either accepted whole or is the NOT_FOUND of a peer that
     does not have the origin: the peer goes back to the queue in both cases *)
-Lemma honest_nonempty_outcome now a r fs rest :
+Lemma honest_nonempty_outcome now t a r fs rest :
   chain_verifies now -> 1 <= r_amount r -> h_height from < r_origin r -> a <= top ->
-  honest_answer c a r = fs ++ rest -> fs <> [] ->
+  honest_answer_t c t a r = fs ++ rest -> fs <> [] ->
   (r_origin r <= a /\ do_request now drift tv from r fs = DOk (map c (seqN (r_origin r) (length fs))) /\
    N.of_nat (length fs) <= r_amount r) \/
-  (a < r_origin r /\ do_request now drift tv from r fs = DErr PNotFound).
+  ((a < r_origin r \/ r_origin r < t) /\ do_request now drift tv from r fs = DErr PNotFound).
 Proof.
-  intros Hcv Ha Ho Hatop Hans Hne. unfold honest_answer in Hans.
-  destruct (N.ltb_spec a (r_origin r)) as [Hlt|Hge].
-  - right. split; [exact Hlt|]. destruct fs as [|f fs]; [contradiction|].
+  intros Hcv Ha Ho Hatop Hans Hne. unfold honest_answer_t in Hans.
+  assert (Hemp : [] = fs ++ rest -> False) by (destruct fs; [contradiction | discriminate]).
+  destruct (wrap64 (r_origin r + r_amount r) <=? r_origin r); [destruct (Hemp Hans)|].
+  destruct (N.eqb_spec (r_origin r) 0) as [Hz|_]; [lia|].
+  destruct (max_range_request <? r_amount r); [destruct (Hemp Hans)|].
+  destruct (a <? t); [destruct (Hemp Hans)|].
+  destruct ((a <? r_origin r) || (r_origin r <? t)) eqn:Hnf.
+  - right. split.
+    { apply orb_prop in Hnf as [H|H]; apply N.ltb_lt in H; [left | right]; exact H. }
+    destruct fs as [|f fs]; [contradiction|].
     injection Hans as <- Hrest. destruct fs; [|discriminate]. apply do_request_notfound, Ha.
-  - left. split; [exact Hge|].
+  - apply orb_false_elim in Hnf as [Hge _]. apply N.ltb_ge in Hge.
+    left. split; [exact Hge|].
     destruct (prefix_of_run _ _ _ _ _ (eq_sym Hans)) as [Hfs Hlen].
     assert (Hj : (1 <= length fs)%nat) by (destruct fs; [contradiction | cbn; lia]).
     split.
@@ -1665,7 +1680,7 @@ Proof.
   assert (Hr : 1 <= r_amount r /\ start <= r_origin r /\ r_origin r + r_amount r <= start + amount).
   { rewrite Forall_forall in H4. apply H4. unfold outstanding. apply in_or_app. right.
     apply in_map_iff. exists (p, r). split; [reflexivity | exact Hin]. }
-  destruct (honest_nonempty_outcome now a r fs rest Hcv ltac:(lia) ltac:(lia) Hatop Hans Hne) as [(_ & Hdo & Hle)|(Hlt & _)]; [|lia].
+  destruct (honest_nonempty_outcome now 1 a r fs rest Hcv ltac:(lia) ltac:(lia) Hatop Hans Hne) as [(_ & Hdo & Hle)|(Hlt & _)]; [|lia].
   destruct (step_accept drift tv maxcap from start amount Hnil Hbound nows U s p now fs r fl _ HL Hres Htf Hdo) as (Hk1 & Hk2 & Hstep).
   subst s'. rewrite Hstep. rewrite map_length, seqN_length in *.
   set (k := N.of_nat (length fs)) in *.
@@ -1699,13 +1714,13 @@ Proof.
     destruct (N.eq_dec p q) as [<-|Hne].
     + (* the reliable peer answers *)
       destruct (Hrel now fs eq_refl) as [Hne Hcv].
-      unfold honest_ev in Hh. rewrite Htf in Hh. destruct Hh as (a & rest & Hatop & Hans).
+      unfold honest_ev in Hh. rewrite Htf in Hh. destruct Hh as (t & a & rest & Hatop & Hans).
       destruct (take_flight_spec _ _ _ _ Htf) as (Hin & _).
       pose proof HI as [_ _ _ H4 _ _ _].
       assert (Hr : 1 <= r_amount r /\ start <= r_origin r /\ r_origin r + r_amount r <= start + amount).
       { rewrite Forall_forall in H4. apply H4. unfold outstanding. apply in_or_app. right.
         apply in_map_iff. exists (p, r). split; [reflexivity | exact Hin]. }
-      destruct (honest_nonempty_outcome now a r fs rest Hcv ltac:(lia) ltac:(lia) Hatop Hans Hne) as [(_ & Hdo & _)|(_ & Hdo)];
+      destruct (honest_nonempty_outcome now t a r fs rest Hcv ltac:(lia) ltac:(lia) Hatop Hans Hne) as [(_ & Hdo & _)|(_ & Hdo)];
         rewrite Hdo.
       * destruct (if 0 <? _ then _ else _) as [bad|rq]; unfold has_peer; cbn [s_idle s_flight set_res].
         -- exact Hhas.
@@ -1973,7 +1988,7 @@ Proof.
     destruct (remove_peer p (s_idle s)); [destruct (remove_req r (s_queue s))|]; cbn [s_res]; congruence.
   - destruct (take_flight p (s_flight s)) as [[r fl]|] eqn:Htf.
     2:{ unfold step. rewrite Hres, Htf. congruence. }
-    unfold honest_ev in Hh. rewrite Htf in Hh. destruct Hh as (a & rest & Ha & Hrest).
+    unfold honest_ev in Hh. rewrite Htf in Hh. destruct Hh as (t & a & rest & Ha & Hrest).
     destruct (do_request now drift tv from r fs) as [e|h|] eqn:Hdo.
     + rewrite (step_respond _ _ _ _ _ _ _ _ _ _ Hres Htf), Hdo. cbn [s_res]. discriminate.
     + assert (HL' : Live drift tv from start amount (now :: nows) (frame_hdrs fs ++ U) s).
@@ -1987,7 +2002,7 @@ Proof.
       destruct (do_request_ok drift tv now from r fs h Hnil Hdo) as (_ & _ & Hincl & _).
       assert (Hon' : Forall (on_chain c top) (s_coll s ++ h)).
       { apply Forall_app. split; [exact Hon|]. apply Forall_forall. intros x Hx.
-        assert (Hinx : In x (frame_hdrs (honest_answer c a r))).
+        assert (Hinx : In x (frame_hdrs (honest_answer_t c t a r))).
         { rewrite Hrest, frame_hdrs_app. apply in_or_app. left. apply Hincl, Hx. }
         eapply honest_answer_on_chain; eauto. }
       pose proof (honest_finish start amount _ _ _ now Hmid) as Hfin. cbn [s_coll s_chunks] in Hfin.
